@@ -6,7 +6,7 @@ import gen_run
 import run_cluster as R
 
 PROP = "C02"
-CONE = sorted(set(K.MODEL_FILES + E.MODEL_FILES + R.MODEL_FILES + ["Gen/Generated.v", "Proofs/SkelPinChecker.v", "Proofs/CheckerFrame.v", "Proofs/CheckerProps.v", "Proofs/ElabRefine.v", "Props/C02.v"]))
+CONE = sorted(set(K.MODEL_FILES + E.MODEL_FILES + R.MODEL_FILES + ["Gen/Generated.v", "Proofs/SkelPinChecker.v", "Proofs/CheckerFrame.v", "Proofs/CheckerProps.v", "Proofs/CheckerAfter.v", "Proofs/ElabRefine.v", "Props/C02.v"]))
 RULE_E = ("histories of definitions as for C04 (functions with decorator stacks incl. foreign functools.wraps decorators, "
           "DBC hierarchies with overriding members): the lists carried by the wrapper whose code evaluates the contracts - not the "
           "one find_checker hands out - are the declared effective contracts (spec_C04).")
